@@ -12,6 +12,15 @@
 (*    SSTORE(slot, val) | LOG | XFER(to, val)   effects of the running     *)
 (*                                              frame (XFER = value call   *)
 (*                                              to an account without code)*)
+(*    PRE(kind, to, val, gas, inp)              a call of a precompiled    *)
+(*                                              contract: succeeds (good   *)
+(*                                              input, enough gas; only a  *)
+(*                                              CALL's value moves) or     *)
+(*                                              fails (nothing moves, the  *)
+(*                                              forwarded gas is burnt)    *)
+(*    BALOP(of, ar)                             reads a balance (SELFBALANCE*)
+(*                                              / BALANCE) and computes    *)
+(*                                              with it: changes nothing   *)
 (* The first token is the transaction's call from the origin account.      *)
 (*                                                                         *)
 (* Design layer (implementation shaped): a frame stack; entering a frame   *)
@@ -64,14 +73,20 @@ vars == <<prog, mode, open, pc, world, fs, out>>
 Origin  == "O"
 KName(i) == "K" \o ToString(i)                       \* the account created by the CREATE token at index i
 Created == { KName(i) : i \in 1..MaxTokens }
-Names   == {Origin} \cup Contracts \cup Plain \cup Created
+\* precompiled contracts 0x01..0x08 (ecrecover, sha256, ripemd160, identity, modexp, bn256 add / mul / pairing): accounts
+\* that do not exist initially; only the rich alphabet and hand-written programs call them
+Pre     == IF Alphabet = "rich" THEN {"P1", "P2", "P3", "P4", "P5", "P6", "P7", "P8"} ELSE {}
+Names   == {Origin} \cup Contracts \cup Plain \cup Created \cup Pre
 Slots   == {1, 2}
 Min(a, b) == IF a < b THEN a ELSE b
 
 InitBal(a) == IF a = Origin THEN 5 ELSE IF a \in Contracts THEN 2 ELSE IF a = "E" THEN 1 ELSE 0
 InitExists(a) == a = Origin \/ a \in Contracts \/ a = "E"
+\* contracts start with storage from earlier transactions: A.1 = 3, B.2 = 3, C.1 = C.2 = 3 (the driver commits it, or has
+\* part of it written by an earlier, finalised transaction of the same block)
+InitSto(a, s) == IF (a = "A" /\ s = 1) \/ (a = "B" /\ s = 2) \/ a = "C" THEN 3 ELSE 0
 World0 == [bal   |-> [a \in Names |-> InitBal(a)],
-           sto   |-> [a \in Names |-> [s \in Slots |-> 0]],
+           sto   |-> [a \in Names |-> [s \in Slots |-> IF a \in Contracts THEN InitSto(a, s) ELSE 0]],
            code  |-> [a \in Names |-> IF a \in Contracts THEN "own" ELSE ""],
            logs  |-> <<>>,
            made  |-> {},          \* accounts created in this transaction
@@ -84,11 +99,24 @@ Total(w) == SumBal(w.bal, Names)
 
 ---------------------------------------------------------------------------
 (* Alphabets *)
-Vals == IF Alphabet = "tiny" THEN {1} ELSE {1, 2}
+\* calls of precompiled contracts; "bad" input only where the precompile rejects input (the bn256 operations);
+\* gas = "one" only without value (as for message calls)
+PreToks == { [t |-> "PRE", kind |-> k, to |-> a, val |-> v, gas |-> g, inp |-> i] :
+                k \in {"CALL", "CALLCODE", "DELEGATECALL", "STATICCALL"}, a \in Pre, v \in {0, 1}, g \in {"all", "one"},
+                i \in {"good", "bad"} }
+PreTokOK(p) == /\ (p.kind \in {"DELEGATECALL", "STATICCALL"} => p.val = 0)
+               /\ (p.gas = "one" => p.val = 0)
+               /\ (p.inp = "bad" => p.to \in {"P6", "P7", "P8"})
+\* every precompile needs more than one unit of gas for the inputs the driver uses
+PreSucceeds(p) == p.gas = "all" /\ p.inp = "good"
+
+Vals == IF Alphabet = "tiny" THEN {0, 1} ELSE {0, 1, 2, 3}      \* 0 clears a slot, 3 is the value the slots start with
 SimpleToks ==
    { [t |-> "SSTORE", slot |-> s, val |-> v] : s \in (IF Alphabet = "tiny" THEN {1} ELSE Slots), v \in Vals }
    \cup { [t |-> "LOG"] }
    \cup { [t |-> "XFER", to |-> a, val |-> v] : a \in Plain, v \in (IF Alphabet = "rich" THEN {0, 1, 2} ELSE {1}) }
+   \cup (IF Alphabet = "tiny" THEN {} ELSE { [t |-> "BALOP", of |-> a, ar |-> r] : a \in {"SELF", "A"}, r \in {"ADD", "MUL", "POP"} })
+   \cup { p \in PreToks : PreTokOK(p) /\ p.to \in {"P1", "P4", "P6", "P8"} /\ p.gas = "all" }     \* a representative subset
 CallKinds == IF Alphabet = "tiny" THEN {"CALL", "STATICCALL", "DELEGATECALL"}
              ELSE {"CALL", "CALLCODE", "DELEGATECALL", "STATICCALL"}
 \* gas = "one" only without value (with value the 2300 stipend would let the callee run a little)
@@ -180,6 +208,9 @@ Enter(f, w) == /\ fs' = Append(fs, f) /\ world' = w /\ Goto(pc + 1) /\ UNCHANGED
 
 Step(w) == /\ world' = w /\ Goto(pc + 1) /\ UNCHANGED <<fs, out>>
 Xfer(res, w) == /\ world' = w /\ out' = Append(out, [site |-> pc, res |-> res]) /\ Goto(pc + 1) /\ UNCHANGED fs
+\* a precompile that fails: nothing changes, the caller loses the gas it forwarded (63/64 of what it had for gas = "all")
+PreFail(burn) == /\ out' = Append(out, [site |-> pc, res |-> "fail"]) /\ Goto(pc + 1) /\ UNCHANGED world
+                 /\ fs' = IF burn THEN [fs EXCEPT ![Len(fs)].lvl = @ + 1] ELSE fs
 
 Exec ==
    /\ mode = "run"
@@ -196,6 +227,13 @@ Exec ==
                   IF f.static /\ tk.val > 0 THEN Fail
                   ELSE IF tk.val > world.bal[f.ctx] THEN Xfer("nofunds", world)   \* refused, the frame goes on
                   ELSE Xfer("ok", Pay(world, f.ctx, tk.to, tk.val))
+             [] tk.t = "BALOP" -> Step(world)
+             [] tk.t = "PRE" ->
+                  IF f.static /\ tk.kind = "CALL" /\ tk.val > 0 THEN Fail
+                  ELSE IF tk.kind \in {"CALL", "CALLCODE"} /\ tk.val > world.bal[f.ctx] THEN Xfer("nofunds", world)
+                  ELSE IF PreSucceeds(tk)
+                       THEN Xfer("ok", IF tk.kind = "CALL" THEN Pay(world, f.ctx, tk.to, tk.val) ELSE world)
+                       ELSE PreFail(tk.gas = "all")
              [] tk.t = "CALL" ->
                   IF f.static /\ tk.kind = "CALL" /\ tk.val > 0 THEN Fail
                   ELSE IF tk.kind \in {"CALL", "CALLCODE"} /\ tk.val > world.bal[f.ctx] THEN NotEntered("nofunds")
@@ -240,6 +278,7 @@ GasAmple == \A i \in DOMAIN fs : fs[i].lvl <= MaxLvl
 (* What the model predicts for the finished transaction (after Finalise:   *)
 (* self-destructed accounts are deleted, with whatever they still held)    *)
 Used == {Origin} \cup Contracts \cup Plain \cup { KName(i) : i \in { n \in DOMAIN prog : prog[n].t = "CREATE" } }
+        \cup { prog[n].to : n \in { k \in DOMAIN prog : prog[k].t = "PRE" } }
 Gone(a) == a \in world.dead
 Final == [bal  |-> [a \in Used |-> IF Gone(a) THEN 0 ELSE world.bal[a]],
           sto  |-> [a \in Used |-> IF Gone(a) THEN <<0, 0>> ELSE <<world.sto[a][1], world.sto[a][2]>>],
